@@ -103,6 +103,23 @@ impl Check for C02 {
                     }
                 }
             }
+            // history: an attempt that fails at a drawn byte offset, then the same library written again on this thread —
+            // the second stream must be the well-formed one (no residue of the failed attempt)
+            if out.violation.is_none() && !bytes0.is_empty() {
+                let (tpol, tlabel) = terminal_write(&mut io.borrow_mut().ftape, bytes0.len() as u64);
+                extra ^= policy_digest(&tpol).rotate_left(29);
+                let failing = SimSink::new(&io, tpol);
+                if let Ok(Err(_)) = guard(|| lib.write(failing)) {
+                    let sink = SimSink::new(&io, Policy::plain());
+                    let st2 = sink.store.clone();
+                    match guard(|| lib.write(sink)) {
+                        Ok(Ok(())) if *st2.borrow() == bytes0 => out.probes.hit("write_after_failed_write_identical"),
+                        Ok(Ok(())) => out.violation = Some(Violation { class: "not-conserved".into(), sig: "write/after-failed-write/bytes".into(), detail: format!("after a write that failed ({}), the next write on the same thread produced {} bytes that differ from the {}-byte stream", tlabel, st2.borrow().len(), bytes0.len()), artefact: art(&lib, &bytes0) }),
+                        Ok(Err(e)) => out.violation = Some(Violation { class: "not-transparent".into(), sig: "write/after-failed-write/result".into(), detail: format!("a fault-free write fails after an earlier failed write: {}", e), artefact: art(&lib, &[]) }),
+                        Err(p) => out.violation = Some(panic_violation("GdsLibrary::write(after a failed write)", &p, json!({"library": lib_artefact(&lib)}))),
+                    }
+                }
+            }
             // a consumed sink with a write-back cache and interrupted flushes: success must mean the whole stream is durable
             if out.violation.is_none() {
                 let pol = writeback_sink(&mut io.borrow_mut().ftape);
